@@ -124,6 +124,20 @@ func libCall(fn string, in []byte, text string, flags uint32) (outcome string) {
 			return "true"
 		}
 		return "false"
+	case "ScriptScan":
+		// the script scanners that run on every script of every transaction and block from a
+		// peer, outside evalScript's recover(): sigop counting and the push-only test
+		a := btc.GetSigOpCount(in, true)
+		b := btc.GetSigOpCount(in, false)
+		c := btc.GetP2SHSigOpCount(in)
+		d := btc.IsPushOnly(in)
+		tx := *libTx
+		ti := *tx.TxIn[0]
+		ti.ScriptSig = in
+		tx.TxIn = []*btc.TxIn{&ti}
+		tx.TxOut = []*btc.TxOut{{Value: 1, Pk_script: in}}
+		e := tx.GetLegacySigOpCount()
+		return fmt.Sprintf("sigops-%d-%d-%d-%d-pushonly-%v", a, b, c, e, d)
 	case "Signature.ParseBytes":
 		var s secp256k1.Signature
 		n := s.ParseBytes(in)
@@ -339,7 +353,11 @@ const consensusFlags = script.VER_P2SH | script.VER_DERSIG | script.VER_CLTV | s
 func (g *libGen) scripts(thorough bool) {
 	flagSets := []uint32{consensusFlags, script.STANDARD_VERIFY_FLAGS}
 	sigs := [][]byte{{}, {0x51}, {0x01, 0x01, 0x00}}
+	p2sh := append(append([]byte{0xa9, 0x14}, make([]byte, 20)...), 0x87)
 	emit := func(pk []byte) {
+		// the same bytes through the script scanners, and as the signature script of a P2SH spend
+		g.add("ScriptScan", fmt.Sprintf("scripts-len%d", len(pk)), 0, false, hex.EncodeToString(pk))
+		g.add("VerifyTxScript", fmt.Sprintf("sigscripts-len%d", len(pk)), consensusFlags, false, hex.EncodeToString(append(append([]byte{byte(len(pk))}, pk...), p2sh...)))
 		for _, fl := range flagSets {
 			for _, s := range sigs {
 				in := append([]byte{byte(len(s))}, s...)
@@ -350,6 +368,22 @@ func (g *libGen) scripts(thorough bool) {
 	emit(nil)
 	for a := 0; a < 256; a++ {
 		emit([]byte{byte(a)})
+	}
+	// every push opcode with 0..5 of its length / data bytes present, after 0-1 leading opcodes
+	for _, lead := range [][]byte{nil, {0x51}, {0xac}} {
+		for _, op := range []byte{0x01, 0x02, 0x05, 0x4b, 0x4c, 0x4d, 0x4e} {
+			for n := 0; n <= 5; n++ {
+				for _, fill := range []byte{0x00, 0x01, 0x04, 0xff} {
+					sc := append(append([]byte{}, lead...), op)
+					for k := 0; k < n; k++ {
+						sc = append(sc, fill)
+					}
+					g.add("ScriptScan", "truncated-push", 0, false, hex.EncodeToString(sc))
+					g.add("VerifyTxScript", "truncated-push-sigscript", consensusFlags, false, hex.EncodeToString(append(append([]byte{byte(len(sc))}, sc...), p2sh...)))
+					g.add("VerifyTxScript", "truncated-push-pkscript", consensusFlags, false, hex.EncodeToString(append([]byte{0}, sc...)))
+				}
+			}
+		}
 	}
 	for a := 0; a < 256; a++ {
 		for b := 0; b < 256; b++ {
